@@ -275,6 +275,11 @@ func (e *Engine) VerifyFunction(fn *ssa.Function, ct *Contract, timeoutMs, par i
 	for _, p := range ptrParams {
 		x.noteStructAddr(s, deref(p.T), p.L[0], p.L[1])
 	}
+	// every ghost counter exists from the entry state on (a counter first mentioned after the
+	// symbol generation changed would otherwise silently be a different, unconstrained symbol)
+	for g := range e.ghostEmitters() {
+		x.ghost(s, g)
+	}
 	x.entry = s.Clone()
 	if ct != nil {
 		for _, rq := range ct.Requires {
